@@ -67,6 +67,8 @@ type event struct {
 	F2     string     `json:"f2"`
 	Pk1    string     `json:"pk1"`
 	Pk2    string     `json:"pk2"`
+	S1     string     `json:"s1"` // Race: what the racing statement touches (lo.FilterOptions | filterOptions. | "")
+	S2     string     `json:"s2"`
 	Shared bool       `json:"shared"`
 	Info   string     `json:"info"`
 	seq    int64
